@@ -117,6 +117,13 @@ func (s srcSpec) build(buf []byte) []byte {
 			}
 		case "lcg":
 			lcgFill(b, uint64(s.Len))
+		case "rep65535", "rep65536", "rep65537":
+			// an incompressible chunk repeated at a stride at the window edge
+			stride := map[string]int{"rep65535": 65535, "rep65536": 65536, "rep65537": 65537}[s.Content]
+			lcgFill(b[:min(stride, len(b))], 4242)
+			for i := stride; i < len(b); i++ {
+				b[i] = b[i-stride]
+			}
 		case "text":
 			const words = "the quick brown fox jumps over the lazy dog and runs away from the farmer who shouts loudly "
 			x := uint64(12345)
@@ -143,6 +150,15 @@ func enumSources(c *ev.Ctx, heavy bool, emit srcEmit) {
 		s4lens = append(s4lens, 1<<20, 4<<20-1, 4<<20)
 	} else {
 		s4lens = append(s4lens, 1<<20)
+	}
+	for _, n := range []int{131073, 200000, 262144} {
+		for _, ct := range []string{"rep65535", "rep65536", "rep65537"} {
+			if !c.Next() {
+				continue
+			}
+			s := srcSpec{Fam: "S4", Len: n, Content: ct}
+			emit(s, s.build(buf))
+		}
 	}
 	for _, n := range s4lens {
 		for _, ct := range []string{"zeros", "p7", "lcg", "text"} {
@@ -640,7 +656,11 @@ func c14Histories(c *ev.Ctx, env *blockEnv) {
 			var o compObjs
 			for pi := range probes {
 				for _, hx := range h {
-					o.compress(cfg, hsrc[hx], scratch[:lz4.CompressBlockBound(len(hsrc[hx]))])
+					dl := lz4.CompressBlockBound(len(hsrc[hx]))
+					if (hi+pi)%3 == 2 && len(hsrc[hx]) > 40 {
+						dl = len(hsrc[hx]) / 3 // a call that fails half-way (destination too short) is history too
+					}
+					o.compress(cfg, hsrc[hx], scratch[:dl])
 					transitions++
 				}
 				dst := scratch[:lz4.CompressBlockBound(len(psrc[pi]))]
